@@ -44,6 +44,12 @@ def configurations(rng, tier):
                 if rng.random() < 0.4:
                     extra.append((rng.choice(behs), "cpt", 5, 5))
                 yield "queued-requests", Cfg(behaviour=first, path=path, retries=rng.choice([0, 1]), c_max=206, s_max=206, extra=extra)
+    # 1b'. a request that cannot be encoded (a required parameter is missing), alone and with others queued behind it: the
+    #      application is told (an exception at submission, or the IOCB ends with the error) and the others proceed
+    for path in ("direct", "iocb"):
+        for nq in (0, 1, 2):
+            yield "unencodable-request", Cfg(service="unencodable", path=path, retries=0, c_max=206, s_max=206,
+                                             extra=[(rng.choice(behs[:4]), "cpt", 5, 5) for _ in range(nq)])
     # 1c. IOCB queue: follow-up requests submitted when the first completes (from its callback, directly or through
     #     deferred()), with other requests already queued behind it; queued requests that are aborted locally the moment they
     #     start (too long for a peer without segmentation) with more behind them
